@@ -327,7 +327,10 @@ def compare(case, res, reqs, replies):
             is_final = (i == len(hs) - 1) and abs((x + h) - L) <= 1e-9 * L and x + r > L * (1 - 1e-12)
             if is_final:
                 break
-            if not (abs(h - r) <= tol * max(abs(r), 1e-300)) or not (x + r <= L * (1 + 1e-12)):
+            # rounding of the replayed field accumulates over the steps already applied (observed 1.3e-9 after 469 steps on the
+            # unchanged tree, seed 70 of a sweep): the step-rule tolerance grows with the step index like the field tolerance
+            toli = tol * max(1.0, i / 20.0)
+            if not (abs(h - r) <= toli * max(abs(r), 1e-300)) or not (x + r <= L * (1 + 1e-12)):
                 out.append(f"step {i}: implementation took {h!r}, model rule gives {r!r} (x={x!r}, L={L!r})")
                 break
             x += h
